@@ -19,7 +19,7 @@ PROP = "C15"
 def translate():
     from translator import registry
 
-    return registry.generate("Transitions", "Wiring", "Blocks", "Constants", "KernelsMultiscale")
+    return registry.generate("Transitions", "Wiring", "Blocks", "Constants", "KernelsMultiscale", "KernelsMultiscaleGlue")
 
 
 _CACHE = {}
@@ -468,6 +468,143 @@ def kernel_cross_check(ctx, report, status):
                 return
 
 
+def glue_cross_check(ctx, report, status):
+    """T15 (multiscale, round 2): the readings of `gen_kernels_multiscale_glue` against the live objects —
+    the crop ifs of cv_masked executed by CPython on real arrays, skimage's `pyramid_gaussian` with the pinned arguments
+    (the hypothesis `PyramidIsCeil` of `pyramidSizes_generated`), the real `prepare_pyramid` (sizes, order, which arrays
+    are shared with the input, input untouched), the real `convert_pyramid_to_dataset`, the real `read_multiscale_params`,
+    pyexpr's evaluator of the user-bound kernels against CPython."""
+    import ast
+    import random
+
+    import xarray as xr
+
+    from translator import gen_kernels_multiscale_glue as gg, pyexpr
+    from translator.common import find_class, find_method, parse
+
+    try:
+        parts = gg.parts()
+    except Exception:  # already reported by build_and_audit  # pylint: disable=broad-except
+        return
+    rng = random.Random(2626 + ctx.seed)
+
+    def problem(msg):
+        status.problem("translator", msg)
+
+    # --- cv_masked's crop: the if statements themselves, run by CPython on numpy arrays
+    fn = find_method(find_class(parse(gg.MC_REL), "AbstractMatchingCost"), "cv_masked")
+    ifs = [st for st in fn.body if isinstance(st, ast.If) and any(isinstance(x, ast.Assign) and any(
+        isinstance(t, ast.Name) and t.id in ("disp_min", "disp_max") for t in x.targets) for x in ast.walk(st))]
+    code = compile(ast.Module(body=ifs, type_ignores=[]), "<cv_masked crop>", "exec")
+    dims = parts["cv_crop"]["dims"]
+    for _ in range(40):
+        ny, nx = rng.randrange(1, 9), rng.randrange(1, 9)
+        sh = (max(ny + rng.choice([-2, 0, 1, 2]), 1), max(nx + rng.choice([-1, 0, 1, 3]), 1))
+        base = np.arange(sh[0] * sh[1], dtype=float).reshape(sh)
+        env = {"disp_min": base.copy(), "disp_max": base.copy() + 1000, dims[0]: ny, dims[1]: nx}
+        exec(code, {"np": np}, env)  # pylint: disable=exec-used
+        (smin, omin), (smax, omax) = gg.eval_cv_crop(parts["cv_crop"], ny, nx, sh, sh)
+        report.translator_checks += 1
+        ok = env["disp_min"].shape == smin and env["disp_max"].shape == smax
+        if ok and all(smin) and all(smax):
+            ok = env["disp_min"][0, 0] == base[omin[0], omin[1]] and env["disp_max"][0, 0] == base[omax[0], omax[1]] + 1000
+        if not ok:
+            problem(f"cv_masked crop: grids of shape {sh} for a {ny}x{nx} cost volume: real {env['disp_min'].shape}/{env['disp_max'].shape}, "
+                    f"translated {smin}/{smax} offsets {omin}/{omax}")
+            return
+    # --- pyramid_gaussian with the pinned arguments: the size rule assumed by pyramidSizes_generated
+    from skimage.transform import pyramid_gaussian
+
+    a = parts["prepare_pyramid"]["args"]
+    try:
+        kw = {"sigma": float(a["sigma"]), "order": int(a["order"]), "mode": a["mode"].strip("'\""), "cval": float(a["cval"])}
+    except ValueError:
+        kw = None
+    if kw is not None:
+        for _ in range(25):
+            n, m, f, ns = rng.randrange(8, 60), rng.randrange(8, 60), rng.choice([2, 3]), rng.choice([2, 3])
+            layers = list(pyramid_gaussian(np.zeros((n, m)), max_layer=ns - 1, downscale=f, channel_axis=None, **kw))
+            want_r, want_c, r, c = [], [], n, m
+            for _k in range(ns):
+                want_r.append(r)
+                want_c.append(c)
+                r, c = -(-r // f), -(-c // f)
+            report.translator_checks += 1
+            if [x.shape[0] for x in layers] != want_r or [x.shape[1] for x in layers] != want_c:
+                problem(f"pyramid_gaussian({n}x{m}, max_layer={ns - 1}, downscale={f}, pinned arguments) yields "
+                        f"{[x.shape for x in layers]}, the hypothesis of pyramidSizes_generated says {list(zip(want_r, want_c))}")
+                return
+    # --- the real prepare_pyramid / convert_pyramid_to_dataset: sizes, order, sharing, inputs untouched
+    from pandora import img_tools
+
+    for trial in range(6):
+        n, m, f, ns = rng.randrange(9, 30), rng.randrange(9, 30), rng.choice([2, 3]), rng.choice([2, 3])
+        multi = trial % 3 == 2
+        data = np.random.default_rng(trial).integers(0, 200, size=((2, n, m) if multi else (n, m))).astype(np.float32)
+        dims_ = ["band_im", "row", "col"] if multi else ["row", "col"]
+        coords = {"row": np.arange(n), "col": np.arange(m)}
+        if multi:
+            coords["band_im"] = ["r", "g"]
+        msk = np.zeros((n, m), dtype=np.int16)
+        msk[0, 0] = 1
+        imgs = []
+        for _side in range(2):
+            ds = xr.Dataset({"im": (dims_, data.copy()), "msk": (["row", "col"], msk.copy())}, coords=coords,
+                            attrs={"no_data_img": 0, "valid_pixels": 0, "no_data_mask": 1, "crs": None, "transform": None,
+                                   "disparity_source": [-2, 2]})
+            imgs.append(ds)
+        before = [(d["im"].data.copy(), d["msk"].data.copy()) for d in imgs]
+        try:
+            pl_, pr_ = img_tools.prepare_pyramid(imgs[0], imgs[1], ns, f)
+        except Exception as exc:  # pylint: disable=broad-except
+            problem(f"prepare_pyramid raised {type(exc).__name__} on a {n}x{m} pair (multiband={multi})")
+            return
+        report.translator_checks += 1
+        sizes = [int(d.sizes["row"]) for d in pl_]
+        model = ctx.lean.call("C15.sizes", n=n, f=f, num_scales=ns) if False else None
+        want, r = [], n
+        for _k in range(ns):
+            want.append(r)
+            r = -(-r // f)
+        want = want[::-1] if parts["prepare_pyramid"]["reversed"] else want
+        if sizes != want:
+            problem(f"prepare_pyramid({n}x{m}, num_scales={ns}, factor={f}) returns row sizes {sizes}, translated {want}")
+            return
+        fine = pl_[-1] if parts["prepare_pyramid"]["reversed"] else pl_[0]
+        coarse = [d for d in pl_ if d is not fine]
+        shares = any(np.shares_memory(d["im"].data, imgs[0]["im"].data) or np.shares_memory(d["msk"].data, imgs[0]["msk"].data) for d in coarse)
+        untouched = all(np.array_equal(d["im"].data, b[0]) and np.array_equal(d["msk"].data, b[1]) for d, b in zip(imgs, before))
+        cp = parts["convert_pyramid"]
+        if fine is not imgs[0] or (shares and cp["im"] == "fresh" and cp["msk"] == "fresh") or not untouched:
+            problem(f"prepare_pyramid: finest level is the input: {fine is imgs[0]}, a coarse level shares memory with the input: {shares}, "
+                    f"input untouched: {untouched} (translated: level 0 = original, im {cp['im']}, msk {cp['msk']})")
+            return
+    # --- read_multiscale_params
+    from pandora import check_configuration
+
+    img = xr.Dataset(attrs={"disparity_source": [-1, 1]})
+    rk = parts["read_params"]
+    for has, ns, f in ((True, 3, 2), (True, 2, 4), (False, 0, 0), (True, 4, 3)):
+        cfg = {"pipeline": {"matching_cost": {"matching_cost_method": "zncc"}}}
+        if has:
+            cfg["pipeline"]["multiscale"] = {"multiscale_method": "fixed_zoom_pyramid", "num_scales": ns, "scale_factor": f}
+        real = tuple(int(v) for v in check_configuration.read_multiscale_params(img, img, cfg))
+        res, vals = pyexpr.evaluate(rk, None, None, [has], [ns, f])
+        report.translator_checks += 1
+        if res != "ok" or tuple(int(v) for v in vals) != real:
+            problem(f"read_multiscale_params on {cfg['pipeline'].get('multiscale')}: real {real}, translated {res} {vals}")
+            return
+    for name, k in parts["run_multiscale"]["kernels"].items():
+        for _ in range(10):
+            b, f = Fraction(rng.randrange(-40, 40), rng.choice([1, 2, 4])), rng.choice([2, 3, 4])
+            res, vals = pyexpr.evaluate(k, b, f)
+            report.translator_checks += 1
+            if res != "ok" or Fraction(vals[0]) != b * f:
+                problem(f"glue kernel {name}: evaluator gives {res} {vals} on {b}, {f}")
+                return
+    report.count("glue_cross_check")
+
+
 DIRECT_SHAPES_QUICK = [(103, 7), (5, 205), (102, 3), (3, 102), (100, 12), (101, 104)]
 DIRECT_SHAPES_THOROUGH = [(3, 3), (5, 5), (99, 4), (4, 101), (201, 6), (6, 203), (104, 104), (205, 103), (7, 302)]
 
@@ -584,6 +721,7 @@ def check_history(ctx, report, gs_a, gs_b):
 def run(ctx, report, status):
     translator_cross_check(report, status)
     kernel_cross_check(ctx, report, status)
+    glue_cross_check(ctx, report, status)
     report.rule = (
         "real pandora.run on small pairs with a multiscale step (num_scales 2-3, scale_factor 2-3, marge 0-2, mono/multiband, "
         "with/without masks, optional steps around it) on a machine whose callbacks record image sizes, interval grids and the "
